@@ -18,7 +18,8 @@ from .. import common as C
 from .. import forms as F
 from .. import gen_graph as G
 from ..oracles import sep_paths as O
-from .c04 import rand_admg, rand_query, table_order
+from . import c04 as C4
+from .c04 import rand_admg, rand_query, table_order, structured_query, with_names
 
 PROP = "C20"
 RULE = ("ADMGs (2-6 nodes; parallel directed+bidirected pairs, bidirected chains, colliders with conditioned descendants at "
@@ -26,8 +27,18 @@ RULE = ("ADMGs (2-6 nodes; parallel directed+bidirected pairs, bidirected chains
         "verdict tables on <=4 nodes (thorough: every mixed graph on <=3 nodes, cyclic ones included); a malformed stream "
         "(endpoint not in graph, endpoint conditioned on, a == b, condition not in graph). Non-trivial: in scope of the "
         "agreement clause with a non-empty conditioning set or a bidirected edge that matters, or a cyclic graph with adjacent "
-        "or connected endpoints.")
+        "or connected endpoints.  Added by sepG (gap review round 5; tags shape / collider_depth / anc_depth / scc_decisive / "
+        "cyc_n_nodes / cutoff_int / names count them): the structured acyclic shapes of C04 (colliders opened only by a conditioned "
+        "descendant 0-5 steps below, also two in a row; long forks; bidirected chains of 3-5 colliders; fully conditioned districts; "
+        "sparse 7-8 node ADMGs; disconnected graphs); cyclic graphs built around one or two directed cycles with the endpoints on "
+        "tails (never adjacent; 5-12 nodes; conditioned cycle nodes, bidirected chords, up to two self-loops) and sparse random "
+        "cyclic graphs on 5-7 nodes with non-adjacent endpoints, where the strongly-connected-component rule decides verdicts "
+        "(scc_decisive: the verdict differs from the one with singleton classes); cutoff as an INTEGER n-1, n or n+3 (no simple path "
+        "is longer), different for the query and the swapped query; whole tables of 5-6 node structured graphs; the mixed-name and "
+        "counterfactual-node name tables of C04.")
 ASSUMPTIONS = [
+    "cutoff: the model has no cut-off; the real code is called with cutoff omitted, None, or an integer >= n-1 (n = number of nodes), for which the documented meaning ('maximum path length to check') makes the verdict equal to the unbounded one. Smaller cut-offs are outside the property (a runtime clause: correspondence + symmetry / adjacency / agreement oracle under these values)",
+    "node names: as in C04 (order-preserving tables A00.., mixed lengths / case, counterfactual-variable nodes); runtime clause",
     "argument FORMS (harness/forms.py; chosen deterministically per case, stored in the case, tagged form_*): the conditioning set in every iterable form (list / tuple / set / frozenset / dict keys / generator / iterator / map; empty also as None or omitted), a different form for the swapped query; cutoff omitted or None; graph / left / right positional or by keyword; the graph through every public constructor of NxMixedGraph. The model takes lists: independence of the form is a runtime clause decided by correspondence + oracle",
     "adjacency clause is read with both endpoints outside the conditioning set (a path with a conditioned endpoint is closed by "
     "the definition of Z-sigma-open; the code answers 'separated' there and the theorem sigma_endpoint_conditioned says so)",
@@ -134,6 +145,71 @@ def rand_long_path(rng):
     return g, a, b, Cs
 
 
+def rand_cycle_tails(rng):
+    """(sepG, gap review G20-2/3) cyclic graphs in which the strongly-connected-component rule can DECIDE the verdict: one
+    directed cycle of 3-5 nodes (optionally a second cycle hanging off the first through a bridge node), the two endpoints on
+    tails of 1-2 edges into / out of / bidirected to a cycle node - so they are never adjacent -, optional bidirected chord,
+    up to two self-loops; C = a non-empty random subset of the cycle nodes (sometimes plus a tail / bridge node).  A
+    conditioned cycle node blocks a route only where the route LEAVES its component (sigma-blocking), which is where
+    sigma-separation and d-separation read the same graph differently.  n = 5..10."""
+    B = C4._B()
+    L = rng.choice([3, 3, 4, 4, 5])
+    cyc = [B.new() for _ in range(L)]
+    for i in range(L):
+        B.di.append([cyc[i], cyc[(i + 1) % L]])
+    second = []
+    bridge = []
+    if rng.random() < 0.3:
+        L2 = rng.choice([2, 3, 3])
+        second = [B.new() for _ in range(L2)]
+        for i in range(L2):
+            B.di.append([second[i], second[(i + 1) % L2]])
+        src = rng.choice(cyc)
+        if rng.random() < 0.6:
+            m = B.new()
+            bridge = [m]
+            B.di.append([src, m])
+            B.di.append([m, second[0]])
+        else:
+            B.di.append([src, second[0]])
+
+    def tail(onto):
+        """an endpoint hanging on `onto` through 1-2 edges; returns (endpoint, inner tail nodes)"""
+        kind = rng.choice(["in", "in", "out", "out", "bi"])
+        inner = []
+        cur = onto
+        steps = rng.choice([1, 1, 2])
+        for k in range(steps):
+            x = B.new()
+            if kind == "in":
+                B.di.append([x, cur])
+            elif kind == "out":
+                B.di.append([cur, x])
+            else:
+                (B.bi if k == 0 else B.di).append([x, cur])
+            if k < steps - 1:
+                inner.append(x)
+            cur = x
+        return cur, inner
+    a, ia = tail(rng.choice(cyc))
+    b, ib = tail(rng.choice(second if second and rng.random() < 0.8 else cyc))
+    if rng.random() < 0.3:
+        u, v = rng.sample(cyc + second + ia + ib, 2)
+        if [u, v] not in B.di and [v, u] not in B.di:
+            B.bi.append([u, v])
+    for _ in range(rng.choice([0, 0, 0, 1, 2])):
+        v = rng.randrange(B.n)
+        if [v, v] not in B.di:
+            B.di.append([v, v])
+    pool = cyc + second
+    Cs = [v for v in pool if rng.random() < rng.choice([0.3, 0.5, 0.8])] or [rng.choice(pool)]
+    if rng.random() < 0.25 and ia + ib + bridge:
+        Cs.append(rng.choice(ia + ib + bridge))
+    if rng.random() < 0.07:
+        Cs = []
+    return B.finish(rng, a, b, Cs, "cycle_tails" + ("2" if second else ""))
+
+
 COND_FORMS = F.CONTAINERS
 EMPTY_FORMS = F.CONTAINERS + ("none", "omitted", "none", "omitted")
 
@@ -142,7 +218,7 @@ def _slots(case):
     if case["kind"] == "one":
         e = EMPTY_FORMS if not case["C"] else COND_FORMS
         return {"conditions": e, "conditions_swapped": e, "ctor": F.CTORS, "call": ("positional", "keyword"),
-                "cutoff": ("omitted", "none")}
+                "cutoff": ("omitted", "none", "omitted", "none", "n-1", "n", "n+3")}
     return {"ctor": F.CTORS}
 
 
@@ -153,8 +229,12 @@ def _forms(case):
 def _graph(case):
     g = case["g"]
     ctor = _forms(case)["ctor"]
-    graph = F.build_graph(g, ctor, seed=3 * len(g["di"]) + len(g["bi"]))
-    return graph, F.constructor_fault(g, graph, ctor)
+    if case.get("names") == "cf" and any(u == v for u, v in g["bi"]):
+        return None, None
+    return C4.build_graph(g, ctor, 3 * len(g["di"]) + len(g["bi"]), case.get("names"))
+
+
+_V, _vint = C4._V, C4._vint
 
 
 def _cell_form(a, b, Cs):
@@ -162,21 +242,70 @@ def _cell_form(a, b, Cs):
     return opts[(5 * a + 3 * b + 11 * len(Cs) + sum(Cs)) % len(opts)]
 
 
+def rand_hamiltonian_path(rng):
+    """the ONLY connection between the endpoints is an open path through EVERY node of the graph (4-7 edges of random kinds,
+    every collider conditioned itself, nothing else): its length n-1 is the largest a simple path can have, so an integer
+    cut-off of exactly n-1 must still find it"""
+    k = rng.randint(4, 7)
+    lab = list(range(k + 1))
+    rng.shuffle(lab)
+    g = {"nodes": [], "di": [], "bi": []}
+    head = [set() for _ in range(k + 1)]
+    for i in range(k):
+        kind = rng.choice(["fwd", "fwd", "back", "back", "bi"])
+        u, w = lab[i], lab[i + 1]
+        if kind == "fwd":
+            g["di"].append([u, w]); head[i + 1].add(i)
+        elif kind == "back":
+            g["di"].append([w, u]); head[i].add(i)
+        else:
+            g["bi"].append([u, w]); head[i].add(i); head[i + 1].add(i)
+    Cs = [lab[i] for i in range(1, k) if len(head[i]) == 2]
+    rng.shuffle(g["di"]), rng.shuffle(g["bi"]), rng.shuffle(Cs)
+    a, b = (lab[0], lab[-1]) if rng.random() < 0.5 else (lab[-1], lab[0])
+    return g, a, b, Cs
+
+
 def cases(rng: random.Random, tier: str):
-    return [F.assign(c, _slots(c)) for c in _cases(rng, tier)]
+    out = []
+    for c in _cases(rng, tier):
+        force = c.pop("force_cutoff", None)
+        F.assign(c, _slots(c))
+        if force:
+            c["forms"]["cutoff"] = force
+        out.append(c)
+    return out
 
 
 def _cases(rng: random.Random, tier: str):
     out = [dict(c) for c in CORPUS] + _load_corpus()
-    for _ in range(6000 if tier == "quick" else 40000):
+    for _ in range(6600 if tier == "quick" else 44000):
         r = rng.random()
         if r < 0.12:
             g, a, b, Cs = rand_collider_chain(rng)
         elif r < 0.16:
             g, a, b, Cs = rand_long_path(rng)
-        elif r < 0.65:
+        elif r < 0.30:
+            # the structured acyclic shapes of C04 (colliders opened 0-5 steps below, long forks, long bidirected chains,
+            # fully conditioned districts, sparse 7-10 node graphs, disconnected graphs)
+            g, a, b, Cs, shape = structured_query(rng)
+            if shape == "sparse_big" and len(G.all_nodes(g)) > 8:
+                continue
+        elif r < 0.62:
             g = rand_admg(rng, 2, 6)
             a, b, Cs = rand_query(rng, g)
+        elif r < 0.74:
+            g, a, b, Cs, shape = rand_cycle_tails(rng)
+        elif r < 0.80:
+            # sparse cyclic graphs on 5-7 nodes, endpoints NOT adjacent
+            g = G.rand_graph(rng, 5, 7, acyclic=False, pd=rng.choice([0.15, 0.2, 0.3]), pb=rng.choice([0.0, 0.1, 0.2]))
+            V = G.all_nodes(g)
+            pairs = [(x, y) for x in V for y in V if x != y and not _adjacent(g, x, y)]
+            if not pairs or O.is_acyclic(g):
+                continue
+            a, b = rng.choice(pairs)
+            Cs = [v for v in V if v not in (a, b) and rng.random() < rng.choice([0.2, 0.4, 0.6])]
+            shape = "cyclic_sparse"
         else:
             g = G.rand_graph(rng, 2, 5, acyclic=False, pd=rng.choice([0.3, 0.5, 0.7]))
             V = G.all_nodes(g)
@@ -184,7 +313,14 @@ def _cases(rng: random.Random, tier: str):
                 continue
             a, b = rng.sample(V, 2)
             Cs = [v for v in V if v not in (a, b) and rng.random() < rng.choice([0.0, 0.3, 0.6])]
-        out.append({"kind": "one", "g": g, "a": a, "b": b, "C": Cs})
+        c = {"kind": "one", "g": g, "a": a, "b": b, "C": Cs}
+        if r >= 0.16 and r < 0.30 or r >= 0.62 and r < 0.80:
+            c["shape"] = shape
+        out.append(with_names(rng, c))
+    for _ in range(80 if tier == "quick" else 500):      # one open path through every node, cut-off exactly n-1 (or n)
+        g, a, b, Cs = rand_hamiltonian_path(rng)
+        out.append({"kind": "one", "g": g, "a": a, "b": b, "C": Cs, "shape": "hamiltonian_path",
+                    "force_cutoff": rng.choice(["n-1", "n-1", "n"])})
     for _ in range(100 if tier == "quick" else 800):     # malformed
         g = G.rand_graph(rng, 1, 5, acyclic=rng.random() < 0.5)
         V = G.all_nodes(g)
@@ -198,11 +334,24 @@ def _cases(rng: random.Random, tier: str):
         elif r < 0.4:
             b = 91
         out.append({"kind": "one", "g": g, "a": a, "b": b, "C": Cs})
-    for _ in range(200 if tier == "quick" else 1500):
+    for _ in range(180 if tier == "quick" else 1500):
         g = rand_admg(rng, 2, 4) if rng.random() < 0.5 else G.rand_graph(rng, 2, 4, acyclic=False)
-        out.append({"kind": "table", "g": g})
+        out.append(with_names(rng, {"kind": "table", "g": g}, 0.05, 0.05))
+    # whole tables of the structured graphs on 5-6 nodes (cyclic with tails, deep colliders, forks, chains, districts)
+    k = 0
+    while k < (16 if tier == "quick" else 200):
+        if rng.random() < 0.5:
+            g, _, _, _, shape = rand_cycle_tails(rng)
+        else:
+            g, _, _, _, shape = structured_query(rng, only=("deep_path", "long_fork", "bidirected_chain", "married_parents"))
+        if 5 <= len(G.all_nodes(g)) <= 6:
+            out.append({"kind": "table", "g": g, "shape": shape.split(":")[0]})
+            k += 1
     for _ in range(40 if tier == "quick" else 300):
-        out.append({"kind": "classes", "g": G.rand_graph(rng, 0, 6, acyclic=rng.random() < 0.3)})
+        out.append(with_names(rng, {"kind": "classes", "g": G.rand_graph(rng, 0, 6, acyclic=rng.random() < 0.3)}, 0.1, 0.1))
+    for _ in range(20 if tier == "quick" else 150):
+        g, _, _, _, _ = rand_cycle_tails(rng)
+        out.append({"kind": "classes", "g": g, "shape": "cycle_tails"})
     if tier == "thorough":
         for k in (2, 3):
             for g in G.enumerate_graphs(k, cyclic=True):
@@ -230,14 +379,18 @@ def _call(graph, a, b, Cs, form="list", kw=False, cutoff="omitted"):
 
     kwargs = {}
     if form != "omitted":
-        kwargs["conditions"] = None if form == "none" else F.container([G.V(c) for c in Cs], form)
+        kwargs["conditions"] = None if form == "none" else F.container([_V(c) for c in Cs], form)
     if cutoff == "none":
         kwargs["cutoff"] = None
+    elif cutoff != "omitted":
+        # an explicit integer cut-off that no simple path can exceed (a simple path has at most n-1 edges): the verdict must
+        # be the unbounded one
+        kwargs["cutoff"] = len(graph.nodes()) + {"n-1": -1, "n": 0, "n+3": 3}[cutoff]
     try:
         if kw:
-            r = are_sigma_separated(graph=graph, left=G.V(a), right=G.V(b), **kwargs)
+            r = are_sigma_separated(graph=graph, left=_V(a), right=_V(b), **kwargs)
         else:
-            r = are_sigma_separated(graph, G.V(a), G.V(b), **kwargs)
+            r = are_sigma_separated(graph, _V(a), _V(b), **kwargs)
         return ["ok", "true" if r else "false"]
     except Exception:  # noqa: BLE001 - whatever the class: an error outcome of the real code, never a harness error
         return ["err"]
@@ -247,11 +400,27 @@ def _adjacent(g, a, b):
     return a != b and any(set(e) == {a, b} for e in g["di"] + g["bi"])
 
 
-def _check(g, graph, a, b, Cs, out, back_form=None, kw=False):
+def _trivial_sigma_verdict(graph, a, b, Cs):
+    """MEASUREMENT for the tags only: the verdict with every equivalence class replaced by a singleton (d-blocking);
+    where it differs from the real verdict the strongly-connected-component rule decided the query"""
+    import networkx as nx
+    from y0.algorithm.separation.sigma_separation import is_z_sigma_open
+
+    try:
+        sig = {v: {v} for v in graph.nodes()}
+        cond = {_V(c) for c in Cs}
+        r = not any(is_z_sigma_open(graph, p, conditions=cond, sigma=sig)
+                    for p in nx.all_simple_paths(graph.disorient(), _V(a), _V(b)))
+        return ["ok", "true" if r else "false"]
+    except Exception:  # noqa: BLE001
+        return ["err"]
+
+
+def _check(g, graph, a, b, Cs, out, back_form=None, kw=False, back_cutoff="omitted"):
     """oracle for one query; returns failure text or None"""
     V = set(G.all_nodes(g))
     if a in V and b in V:
-        back = _call(graph, b, a, Cs, back_form or _cell_form(b, a, Cs), kw)
+        back = _call(graph, b, a, Cs, back_form or _cell_form(b, a, Cs), kw, back_cutoff)
         if back != out:
             return f"not symmetric: sigma({a},{b}|{Cs}) = {out}, sigma({b},{a}|{Cs}) = {back}"
         if _adjacent(g, a, b) and a not in Cs and b not in Cs and out != ["ok", "false"]:
@@ -285,6 +454,10 @@ def run_python(case):
     g = case["g"]
     V = G.all_nodes(g)
     acyclic = O.is_acyclic(g)
+    C4._CUR["names"] = case.get("names")
+    if case.get("names") == "cf" and any(u == v for u, v in g["bi"]):
+        C4._CUR["names"] = None
+        case = {k: v for k, v in case.items() if k != "names"}
     if case["kind"] == "classes":
         from y0.algorithm.separation.sigma_separation import get_equivalence_classes
 
@@ -292,7 +465,7 @@ def run_python(case):
         if fault:
             return {"out": ["err"], "fail": fault, "nontrivial": False, "tags": dict({"kind": "classes"}, **F.tags(_forms(case)))}
         cl = get_equivalence_classes(graph) if len(g["di"]) % 2 else get_equivalence_classes(graph=graph)
-        out = ["ok", C.as_set([[str(G.vint(v)), C.as_set([str(G.vint(x)) for x in s])] for v, s in cl.items()])]
+        out = ["ok", C.as_set([[str(_vint(v)), C.as_set([str(_vint(x)) for x in s])] for v, s in cl.items()])]
         # strongly connected components by definition
         di = {tuple(e) for e in g["di"]}
 
@@ -309,12 +482,16 @@ def run_python(case):
         want = ["ok", C.as_set([[str(v), C.as_set([str(w) for w in V if w in R[v] and v in R[w]])] for v in V])]
         fail = None if out == want else f"equivalence classes {out} are not the strongly connected components {want}"
         return {"out": out, "fail": fail, "nontrivial": not acyclic,
-                "tags": dict({"kind": "classes", "acyclic": acyclic}, **F.tags(_forms(case)))}
+                "tags": dict({"kind": "classes", "acyclic": acyclic, "names": case.get("names", "plain"),
+                              "n_scc_nontrivial": len({frozenset(w for w in V if w in R[v] and v in R[w]) for v in V
+                                                       if len([w for w in V if w in R[v] and v in R[w]]) > 1})},
+                             **F.tags(_forms(case)))}
     if case["kind"] == "table":
         cells, fails = _run_table(case)
         fail = f"sigma({fails[0][0]},{fails[0][1]}|{fails[0][2]}): {fails[0][3]} ({len(fails)} queries of this graph fail)" if fails else None
         return {"out": ["ok", cells], "fail": fail, "nontrivial": len(V) >= 3,
-                "tags": dict({"kind": "table", "n_nodes": len(V), "acyclic": acyclic}, **F.tags(_forms(case)))}
+                "tags": dict({"kind": "table", "n_nodes": len(V), "acyclic": acyclic, "names": case.get("names", "plain"),
+                              "shape": case.get("shape", "random")}, **F.tags(_forms(case)))}
     a, b, Cs = case["a"], case["b"], case["C"]
     fm = _forms(case)
     graph, fault = _graph(case)
@@ -322,11 +499,22 @@ def run_python(case):
         return {"out": ["err"], "fail": fault, "nontrivial": False, "tags": dict({"kind": "one"}, **F.tags(fm))}
     kw = fm["call"] == "keyword"
     out = _call(graph, a, b, Cs, fm["conditions"], kw, fm["cutoff"])
-    fail = _check(g, graph, a, b, Cs, out, fm["conditions_swapped"], not kw)
+    # the swapped query gets ANOTHER legal cut-off (an integer >= n-1 where the query had none, none where it had one)
+    back_cutoff = {"omitted": "n", "none": "n-1"}.get(fm["cutoff"], "omitted") if len(Cs) % 2 else fm["cutoff"]
+    fail = _check(g, graph, a, b, Cs, out, fm["conditions_swapped"], not kw, back_cutoff)
     scope = O.in_scope(g, a, b, Cs)
     tags = {"kind": "one", "n_nodes": len(V), "acyclic": acyclic, "in_scope": scope, "csize": len(set(Cs)),
-            "outcome": out[0] if out[0] == "err" else out[1], "adjacent": _adjacent(g, a, b)}
+            "outcome": out[0] if out[0] == "err" else out[1], "adjacent": _adjacent(g, a, b),
+            "names": case.get("names", "plain"), "shape": case.get("shape", "random"),
+            "cutoff_int": fm["cutoff"] not in ("omitted", "none") or back_cutoff not in ("omitted", "none")}
     tags.update(F.tags(fm))
+    if scope:
+        want = O.d_separated(g, a, b, Cs)
+        tags.update(C4.depth_tags(g, a, b, Cs, want))
+    elif not acyclic and a in V and b in V and a != b and a not in Cs and b not in Cs:
+        tags["cyc_n_nodes"] = len(V)
+        tags["scc_decisive"] = _trivial_sigma_verdict(graph, a, b, Cs) != out
+        tags["cyc_nonadjacent_separated"] = (not _adjacent(g, a, b)) and out == ["ok", "true"]
     nontrivial = (scope and (bool(Cs) or bool(g["bi"]))) or (not acyclic and a in V and b in V and a != b)
     return {"out": out, "fail": fail, "nontrivial": nontrivial, "tags": tags}
 
